@@ -19,6 +19,9 @@ Record vsrc := mkSrc {
   s_f21_cmp : cmp;  s_f21_push : Z;
   (* else branch: `if new - old <cmp> threshold: new = old + push` (microseconds) *)
   s_f20_cmp : cmp;  s_f20_threshold : Z;  s_f20_push : Z;
+  (* whether an aware old time is moved to UTC before that arithmetic (it does not change the instants;
+     without it, arithmetic in a zone with a variable offset forgets `fold`) *)
+  s_fudge_utc_first : bool;
   (* new_version: positions (statement index in the function body, -1 = absent) of the steps *)
   s_i_check : Z;          (* stix_version = _check_versionable_object(data) *)
   s_i_revoked : Z;        (* if data.get('revoked'): raise RevokeError *)
@@ -73,6 +76,7 @@ Open Scope string_scope.
 Definition model_cfg : vsrc := {|
   s_f21_cmp := CLe; s_f21_push := 1;
   s_f20_cmp := CLt; s_f20_threshold := 1000; s_f20_push := 1000;
+  s_fudge_utc_first := false;
   s_i_check := 0; s_i_revoked := 1; s_i_copy := 2; s_i_unmod := 6; s_i_parse_old := 10; s_i_branch := 12; s_i_update := 13;
   s_unmod_lists := ["STIX_UNMOD_PROPERTIES"; "sco_locked_props"];
   s_unmod_test := "prop in kwargs";
@@ -98,6 +102,7 @@ Definition model_cfg : vsrc := {|
 Definition strip (S : vsrc) : vsrc :=
   {| s_f21_cmp := s_f21_cmp S; s_f21_push := s_f21_push S;
      s_f20_cmp := s_f20_cmp S; s_f20_threshold := s_f20_threshold S; s_f20_push := s_f20_push S;
+     s_fudge_utc_first := false;
      s_i_check := 0; s_i_revoked := 0; s_i_copy := 0; s_i_unmod := 0; s_i_parse_old := 0; s_i_branch := 0; s_i_update := 0;
      s_unmod_lists := s_unmod_lists S; s_unmod_test := s_unmod_test S; s_old_sources := s_old_sources S;
      s_parse_precision := s_parse_precision S; s_parse_constraint := s_parse_constraint S;
